@@ -94,7 +94,7 @@ def f32(v) -> float:
 def gen_matrix(rng, exact: bool, closed: bool = True, max_pts: int = 40) -> list[list[float]]:
     """Well-formed matrix (rows [x,y,z,f,s]): first point closed, s in {0,1}, feeds positive; consecutive rows either
     identical in position or clearly apart; includes shutter toggles that coincide with a displacement, feed-only changes,
-    closed moves in the middle.  Returned as a list of rows of float32-representable floats."""
+    closed moves in the middle, returns to the point before the last one (A, B, A).  Returned as a list of rows of float32-representable floats."""
     n = rng.choice([1, 2, 3, 4, 6, 9, 14, rng.randint(1, max_pts)])
     step = [0.0, 0.5, -0.25, 1.0, 0.125, -2.0] if exact else [0.0, 0.731, -0.219, 1.003, 0.01, -2.17]
     feeds = [0.5, 5.0, 20.0, 1.0, 2.5] if exact else [0.5, 5.0, 20.0, 1.3, 0.1, 33.3]
@@ -109,6 +109,15 @@ def gen_matrix(rng, exact: bool, closed: bool = True, max_pts: int = 40) -> list
             if rng.random() < 0.6:
                 move = False       # ... on a duplicated point (what the builders do)
         f = rows[-1][3] if rng.random() < 0.5 else rng.choice(feeds)
+        if move and len(rows) >= 2 and rng.random() < 0.15:
+            # go back to the point before the last one (A, B, A), often with the feed A was reached with: a program that
+            # remembers "the previous point" wrongly takes the second A for a repeat
+            x, y, z = rows[-2][0], rows[-2][1], rows[-2][2]
+            if rng.random() < 0.7:
+                f = rows[-2][3]
+            if rng.random() < 0.5:
+                s = 1.0 - s
+            move = False
         if move:
             k = rng.choice([0, 1, 2, 3])
             if k in (0, 3):
